@@ -1,6 +1,7 @@
 import KyupyVerif.Proofs.WaveExact
 import KyupyVerif.Proofs.WaveMemCirc
 import KyupyVerif.Proofs.WaveMemDemo
+import KyupyVerif.Proofs.Activity
 /-! # C13 — capture results and switching-activity counts faithfully summarise waveforms
 
 Models (M): `Wave.captureWv` = `wave_capture_cpu` / `wave_capture_gpu` with `sd = 0`; `Wave.waveCounts` = the
@@ -10,8 +11,9 @@ accumulation itself is RUN by the driver (`accum`: `Wave.accumulate` on the zero
 accumulation-control columns 6..8 of `ops`, once per propagation) and compared with the real `abuf` — the former Python
 re-implementation of the sum is gone. `abuf_sum` / `abuf_order_independent` are statements about ANY contribution list; the statement
 "after `c_prop` accumulator `a` of lane `x` grew by Σ over the rows with `aLoc = a` of `aWr·nrise + aWf·nfall` of the waveform the row
-produced" (`activity_all_circuits`, over `WaveIO.cpuCProp` with `accAdd`) is NOT yet a theorem: it is this correspondence plus
-`counts_faithful(_mem)` + `abuf_sum`.
+produced" is the theorem `activity_all_programs` (last section; over `WaveIO.cpuCProp` / `gpuCProp` with `accAdd`, for EVERY op table,
+level table, lane count, block shape and evaluator function — in particular the tables of every circuit), with
+`activity_counts_are_transitions` for the evaluator `evWave` built from the waveform model.
 
 **Memory level** (last section; memory model in the header of Props/C03.lean): `wave_capture` scans the region
 `c[c_loc : c_loc + c_len]` of an output slot up to the first cell `≥ TMAX` — that is `captureWv (rdWave c_loc c_len m)`.
@@ -172,5 +174,62 @@ example (junk : Int → Nat → Wv → (Int → T) → Int → T) : ∃ m1,
   rcases hi with rfl | rfl | rfl | rfl
   · exact memDemo_inputs 10 (Or.inl h10)
   all_goals exact memDemo_inputs 6 (Or.inr rfl)
+
+/-! ## accumulated activity of a whole `c_prop` (both code paths)
+`WaveIO.cpuCProp` / `gpuCProp` = `WaveSim.c_prop` / `WaveSimCuda.c_prop` of Model/WaveIO.lean (tied raw-array-wise by C06 `path-tie`);
+`WaveIO.sched ops levels` = the rows in the order a lane sees them; `laneMem` / `laneTrace` = the lane's memory column after the rows /
+the rows with the `(nrise, nfall)` the evaluator returned for them. -/
+open KV.WaveIO in
+/-- **accumulated switching activity after a propagation** — every evaluator function `ev`, op table with accumulation control,
+    level table, lane count `sims`, lane `k < sims`, accumulator `a`: after `c_prop` the accumulator holds its start value plus
+    the sum, over the rows addressed to `a` in schedule order, of `nrise·a_wr + nfall·a_wf` with the counts the evaluation of that
+    row returned; rows with `a_loc < 0` contribute nothing, negative indices are never written; the lane's memory is the run of
+    the rows alone (accumulation does not feed back); lanes `≥ sims` are untouched -/
+theorem activity_all_programs (ev : Ev) (ops : List AOp) (levels : List (Nat × Nat)) (sims : Nat) (S : Nat → LaneSt) (k : Nat)
+    (hk : k < sims) :
+    (∀ a : Nat, (cpuCProp ev ops levels sims S k).ab (a : Int) =
+        (S k).ab (a : Int) + totalFor a ((laneTrace ev k (sched ops levels) (S k).c).map contribOf)) ∧
+    (∀ a : Int, a < 0 → (cpuCProp ev ops levels sims S k).ab a = (S k).ab a) ∧
+    (cpuCProp ev ops levels sims S k).c = laneMem ev k (sched ops levels) (S k).c ∧
+    (∀ j, sims ≤ j → cpuCProp ev ops levels sims S j = S j) := by
+  rw [cpuCProp_lane ev ops levels sims S k hk]
+  refine ⟨fun a => ?_, fun a ha => laneRun_ab_neg ev k _ _ a ha, laneRun_c ev k _ _, fun j hj => cpuCProp_lane_ge ev ops levels sims S j hj⟩
+  rw [laneRun_ab, accumulate_spec]
+
+open KV.WaveIO in
+/-- the same for the kernel path (`WaveSimCuda.c_prop`, one launch per level, every block shape) -/
+theorem activity_all_programs_gpu (ev : Ev) (ops : List AOp) (levels : List (Nat × Nat)) (sims bx by_ : Nat) (hbx : 0 < bx)
+    (hby : 0 < by_) (S : Nat → LaneSt) (k : Nat) (hk : k < sims) (a : Nat) :
+    (gpuCProp ev ops levels sims bx by_ S k).ab (a : Int) =
+      (S k).ab (a : Int) + totalFor a ((laneTrace ev k (sched ops levels) (S k).c).map contribOf) := by
+  rw [gpuCProp_eq_cpuCProp ev ops levels sims bx by_ hbx hby]
+  exact (activity_all_programs ev ops levels sims S k hk).1 a
+
+open KV.WaveIO in
+/-- which counts enter the sum: entry `i` of the trace is row `i` of the schedule with the counts of ITS evaluation on the
+    memory the rows before it left (not on the initial memory, not on the final one) -/
+theorem activity_trace_entry (ev : Ev) (sim : Nat) (rows : List AOp) (c : Col) (i : Nat) (hi : i < rows.length) :
+    ((laneTrace ev sim rows c).map contribOf)[i]'(by rw [List.length_map, laneTrace_length]; exact hi) =
+      contribOf (rows[i], (ev rows[i].op sim (laneMem ev sim (rows.take i) c)).2.1,
+        (ev rows[i].op sim (laneMem ev sim (rows.take i) c)).2.2) := by
+  rw [List.getElem_map, laneTrace_get ev sim rows c i hi]
+
+open KV.WaveIO in
+/-- with the waveform evaluator (`evWave`, one configuration; delays ≥ 0, output capacity ≥ 4, well-formed operand waveforms in
+    memory) the counts of an evaluation are the rising / falling transitions of the waveform its output region holds afterwards -/
+theorem activity_counts_are_transitions (g : WCfg) (loc : Nat → Int) (o : OpRow) (sim : Nat) (c : Col)
+    (hd : ∀ l p q, 0 ≤ g.delay l p q) (hc : 4 ≤ g.cap o.out)
+    (hx : ∀ i ∈ o.ins, (readWave (rdCells c (loc i) (g.cap i))).ok) :
+    (evWave (fun _ => g) loc o sim c).2 =
+      countTrans false (readWave (rdCells (evWave (fun _ => g) loc o sim c).1 (loc o.out) (g.cap o.out))).ents :=
+  evWave_counts_transitions g loc o sim c hd hc hx
+
+open KV.WaveIO in
+/-- non-vacuity: two levels, three rows (accumulators 1, none, 1; weights (2,3), (5,7), (1,−1)), an evaluator returning
+    `(nrise, nfall) = (out, 1)`: lane 0 of 2, accumulator 1 starts at 10 and ends at 10 + (4·2 + 1·3) + (6·1 − 1·1) = 26 -/
+example :
+    (cpuCProp (fun o _ c => (c, o.out, 1))
+      [⟨⟨0, 4, 0, 0, 0, 0⟩, 1, 2, 3⟩, ⟨⟨0, 5, 0, 0, 0, 0⟩, -1, 5, 7⟩, ⟨⟨0, 6, 0, 0, 0, 0⟩, 1, 1, -1⟩] [(0, 2), (2, 3)] 2
+      (fun _ => ⟨fun _ => T.tmax, fun _ => 10⟩) 0).ab 1 = 26 := by decide +kernel
 
 end KV.C13
